@@ -22,7 +22,9 @@ import tempfile
 import zipfile
 
 from harness import core
-from harness.fsshim import Shim
+import errno as errno_mod
+
+from harness.fsshim import ERRNOS, Shim
 
 PROP = "C08"
 LEAN_TARGETS = ["LoguruModel.Props.C08"]
@@ -122,7 +124,8 @@ def enc_name(n):
 def real_name(sc, n):
     """base file name (inside the log directory) of a structured name"""
     if n[0] == "b":
-        return "app_%s.log" % clk_str(n[1]) if sc["timed"] else "app.log"
+        stem = sc.get("stem", "app")
+        return "%s_%s.log" % (stem, clk_str(n[1])) if sc["timed"] else stem + ".log"
     if n[0] == "o":
         return "zzz%d.dat" % n[1]
     if n[0] == "R":
@@ -148,17 +151,18 @@ def name_of_real(sc, fname):
     if not fname.endswith(".log"):
         return ("?", fname)
     root = fname[:-4]
+    stem = sc.get("stem", "app")
     if sc["timed"]:
-        m = re.match(r"app_(%s)" % DATE_RE, root)
+        m = re.match(r"%s_(%s)" % (re.escape(stem), DATE_RE), root)
         if not m:
             return ("?", fname)
         n = ("b", clk_inv(m.group(1)))
         rest = root[m.end():]
     else:
-        if not root.startswith("app"):
+        if not root.startswith(stem):
             return ("?", fname)
         n = ("b", 0)
-        rest = root[3:]
+        rest = root[len(stem):]
     while rest:
         m = re.match(r"\.(%s)(?:\.(\d+)(?![\d-]))?" % DATE_RE, rest)
         if not m:
@@ -357,14 +361,28 @@ def err_of_exc(e):
     return "Other"
 
 
-def execute(sc, fault_at=()):
+def norm_faults(faults):
+    """faults are given as primitive indices (errno EIO) or [index, errno name] pairs"""
+    out = []
+    for f in faults:
+        if isinstance(f, (list, tuple)):
+            out.append((int(f[0]), str(f[1])))
+        else:
+            out.append((int(f), "EIO"))
+    return tuple(out)
+
+
+def execute(sc, faults=()):
     from loguru._logger import Core, Logger
 
+    faults = norm_faults(faults)
+    fault_at = tuple(k for k, _e in faults)
     ex = Exec()
     root = tempfile.mkdtemp(prefix="c08_")
-    logdir = os.path.join(root, "logs")
+    # directory and file names are part of the scenario: glob metacharacters are ordinary characters there
+    logdir = os.path.join(root, *sc.get("dir", "logs").split("/"))
     shim = Shim()
-    shim.fault_at = frozenset(fault_at)
+    shim.fault_at = {k: getattr(errno_mod, e) for k, e in faults}
     state = {"clk": 0, "ct1": 0, "ct2": 0, "rot": False, "msg": 0}
     ext = "." + arc_ext(sc)
 
@@ -382,6 +400,8 @@ def execute(sc, fault_at=()):
             ids_of_bytes(sc, read_archive(sc, path)[2])
         if phase == "retention":
             ex.deleted.update(ids)
+        elif sc.get("comp") in CEXTS and base.endswith(ext):
+            pass  # an archive (debris) deleted by the sink itself: the no-loss monitors judge the consequences
         elif sc.get("comp") in CEXTS:
             # C18 monitor: at the moment the source is removed the archive must hold exactly its bytes
             kind, member, got = read_archive(sc, path + ext)
@@ -415,10 +435,12 @@ def execute(sc, fault_at=()):
         for p in sorted(logs)[: sc["ret"][1]]:
             fsm.os.stat(p)
             fsm.os.remove(p)
+    shim.retention_codes.add(retention_callable.__code__)
 
     logger = Logger(core=Core(), exception=None, depth=0, record=False, lazy=False, colors=False, raw=False,
                     capture=True, patchers=[], extra={})
-    template = os.path.join(logdir, "app_{time}.log" if sc["timed"] else "app.log")
+    stem = sc.get("stem", "app")
+    template = os.path.join(logdir, stem + "_{time}.log" if sc["timed"] else stem + ".log")
     kwargs = {"format": "{message}", "catch": True, "encoding": sc.get("encoding", "utf8")}
     real = sc.get("real") or {}
     if real.get("rotation") is not None:
@@ -509,13 +531,10 @@ def execute(sc, fault_at=()):
             fired = shim.faulted[fired0:]
             if kind in ("i", "w", "s"):
                 ret = []
-                seen_glob = False
                 for cl in calls:
-                    if cl[0] == "glob":
-                        seen_glob = True
-                    elif seen_glob and cl[0] == "retstat":
+                    if cl[0] == "retstat":
                         ret.append("s")
-                    elif seen_glob and cl[0] == "remove":
+                    elif cl[0] == "remove" and cl[1][1] == "retention":
                         ret.append("d/" + enc_any(name_of_real(sc, os.path.basename(cl[1][0]))))
                 model_ops.append("%s:%d:%d:%d:%d:%s" % (kind, op[1], op[2] if sc["timed"] else 0, op[3], op[4],
                                                        ",".join(ret) or "-"))
@@ -540,7 +559,7 @@ def execute(sc, fault_at=()):
         if hid[0] is not None:
             sys.stderr = io.StringIO()
             try:
-                shim.fault_at = frozenset()
+                shim.fault_at = {}
                 logger.remove(hid[0])
             except Exception:  # noqa
                 pass
@@ -551,7 +570,7 @@ def execute(sc, fault_at=()):
         shim.uninstall()
         shutil.rmtree(root, ignore_errors=True)
     ex.nprims = shim.k
-    bits = "".join("1" if j in shim.fault_at or j in fault_at else "0" for j in range(max(list(fault_at) + [-1]) + 1)) or "-"
+    bits = "".join("1" if j in fault_at else "0" for j in range(max(list(fault_at) + [-1]) + 1)) or "-"
     pre = ";".join("%s=%s" % (n, pre_entry_enc(sc, n, k, ids)) for n, k, ids in sc.get("pre", [])) or "-"
     ex.line = "run %s %s 0 %s %s" % (cfg_token(sc), pre, bits, " ".join(model_ops))
     return ex
@@ -671,7 +690,25 @@ def base_sc(**kw):
     return sc
 
 
+# directory / file names: glob metacharacters (and bracket expressions that are valid character classes,
+# negated classes, unbalanced brackets) are ordinary characters of a path
+DIRS = ["logs", "[worker-1]", "lo*gs", "l?gs/sub[0-9]", "[[]x]", "a[!b]c", "un[balanced", "logs"]
+STEMS = ["app", "a[p]p", "app*", "ap?p", "[app]", "app[1", "app"]
+
+
+def with_names(scs, shift=0):
+    """spread the name alphabets over a list of scenarios (deterministic)"""
+    for i, sc in enumerate(scs):
+        sc.setdefault("dir", DIRS[(i + shift) % len(DIRS)])
+        sc.setdefault("stem", STEMS[(i * 3 + shift) % len(STEMS)])
+    return scs
+
+
 def curated():
+    return with_names(_curated())
+
+
+def _curated():
     out = []
     # plain rotation, fixed path: same-name rename twice with the same creation date -> counter
     out.append(base_sc(ops=[W(), W(1), W(), W(1), W(), S()]))
@@ -723,6 +760,9 @@ def gen_scenario(rng):
     comp = rng.choice([None, None, "call"] + CEXTS + CEXTS)
     sc = base_sc(rot=rng.chance(80), comp=comp, watch=rng.chance(25), timed=rng.chance(35),
                  payload=rng.choice(["ascii", "ascii", "uni"]))
+    if rng.chance(60):
+        sc["dir"] = rng.choice(DIRS)
+        sc["stem"] = rng.choice(STEMS)
     if rng.chance(45):
         sc["ret"] = ["count", rng.below(4)] if rng.chance(75) else ["call", rng.range(1, 2)]
     clk = rng.below(3)
@@ -782,17 +822,36 @@ def nontrivial(ex):
 
 
 # ----------------------------------------------------------------------------- run
-def explore(ctx, scenarios, pairs, prop_filter=None, stream="FileSink.step"):
-    """runs every scenario fault-free, with every single fault (and pairs), returns (executions, lines)"""
+def explore(ctx, scenarios, pairs, errno_sweep=1):
+    """runs every scenario fault-free, then with every single fault – the errno of fault k rotates through
+    ERRNOS – then, for every `errno_sweep`-th scenario, the FIRST call of every primitive kind with every other
+    errno (quick: ENOSPC, EDQUOT, EACCES besides the rotating one; thorough: all of ERRNOS), then pairs."""
     execs = []
+    errnos = ERRNOS if not ctx.quick else ERRNOS[:4]
     for si, sc in enumerate(scenarios):
         ex0 = execute(sc)
         execs.append((sc, (), ex0))
         n = ex0.nprims
+        kinds = [t.split("/")[0] for rec in ex0.ops for t in rec["trace"]]
         ctx.stat("scenarios")
         ctx.stat("primitive_calls_fault_free", n)
+
+        def eno(k):
+            return ERRNOS[(k + si) % len(ERRNOS)]
+
         for k in range(n):
-            execs.append((sc, (k,), execute(sc, (k,))))
+            f = ((k, eno(k)),)
+            execs.append((sc, f, execute(sc, f)))
+        if errno_sweep and si % errno_sweep == 0:
+            first = {}
+            for k, kd in enumerate(kinds):
+                first.setdefault(kd, k)
+            for kd, k in sorted(first.items()):
+                for e in errnos:
+                    if e != eno(k):
+                        f = ((k, e),)
+                        execs.append((sc, f, execute(sc, f)))
+                        ctx.stat("errno_sweep_executions")
         if pairs:
             cap = pairs if isinstance(pairs, int) and not isinstance(pairs, bool) else None
             # the second fault may hit a call that only exists after the first one (up to 3 extra calls)
@@ -800,7 +859,8 @@ def explore(ctx, scenarios, pairs, prop_filter=None, stream="FileSink.step"):
             if cap is not None and len(todo) > cap:
                 todo = ctx.rng.fork("pairs%d" % si).shuffle(todo)[:cap]
             for a, b in todo:
-                execs.append((sc, (a, b), execute(sc, (a, b))))
+                f = ((a, eno(a)), (b, eno(a + b)))
+                execs.append((sc, f, execute(sc, f)))
     return execs
 
 
@@ -810,12 +870,14 @@ def judge(ctx, execs, drv, prop):
         ctx.case(sc_key(sc, faults), nontrivial=nontrivial(ex))
         ctx.stat("executions")
         ctx.stat("faults:%d" % len(faults))
+        for _k, e in norm_faults(faults):
+            ctx.stat("errno:" + e)
         for rec in ex.ops:
             ctx.stat("op:" + rec["op"][0])
             ctx.stat("result:" + rec["res"].split(":")[0])
             if rec["fired"]:
                 ctx.stat("fault_fired")
-        rep = {"scenario": sc, "faults": list(faults)}
+        rep = {"scenario": sc, "faults": [list(f) for f in norm_faults(faults)]}
         for name, text, idx in ex.monitors[:3]:
             ctx.violation("%s: %s" % (name, text), dict(rep, oracle=name, at=idx), kind="oracle")
     # 2. correspondence with the Lean model
@@ -830,7 +892,7 @@ def judge(ctx, execs, drv, prop):
             ctx.stat("executions_real_policies_monitors_only")
             continue
         ctx.traces_validated += 1
-        rep = {"scenario": sc, "faults": list(faults)}
+        rep = {"scenario": sc, "faults": [list(f) for f in norm_faults(faults)]}
         diffs = compare(ex, out)
         if diffs:
             ndiff += 1
@@ -864,9 +926,10 @@ def run(ctx):
     nrand = ctx.n(6, 40) * (3 if boost else 1)
     rng = ctx.rng.fork("scenarios")
     # thorough: ALL pairs of faults on the curated scenarios, a sample of 150 pairs on each random one
-    execs += explore(ctx, curated(), pairs=(False if ctx.quick else True))
-    execs += explore(ctx, [gen_scenario(rng) for _ in range(nrand)], pairs=(False if ctx.quick else 150))
-    execs += explore(ctx, real_policy_scenarios(ctx.quick), pairs=False)
+    execs += explore(ctx, curated(), pairs=(False if ctx.quick else True), errno_sweep=(4 if ctx.quick else 1))
+    execs += explore(ctx, [gen_scenario(rng) for _ in range(nrand)], pairs=(False if ctx.quick else 150),
+                     errno_sweep=(0 if ctx.quick else 2))
+    execs += explore(ctx, with_names(real_policy_scenarios(ctx.quick), shift=2), pairs=False, errno_sweep=0)
     ctx.exhaustive = False
     for sc, _f, ex in execs[:2]:
         ctx.sample({"scenario": sc, "line": ex.line})
